@@ -1,5 +1,5 @@
 (* Lemmas about Model/Errors.v (C12). *)
-From LedgerV Require Import Base.Prelude Gen.StatusOfCount Gen.CheckingStyle Model.Errors.
+From LedgerV Require Import Base.Prelude Gen.StatusOfCount Gen.CheckingStyle Gen.NameChecks Model.Errors.
 Local Open Scope Z_scope.
 
 (* ---- induction over lines with the included files' lines as sub-terms ------------------- *)
@@ -838,11 +838,23 @@ Lemma pedantic_resolve_ann_same o o' :
   o_check_payees o = o_check_payees o' ->
   forall a, resolve_ann o a = resolve_ann o' a.
 Proof.
-  intros Hp Hq Hp' Hq' Hc [k|nk k|k]; cbn [resolve_ann]; [reflexivity| |].
+  intros Hp Hq Hp' Hq' Hc [k|nk k|k|p k]; cbn [resolve_ann]; [reflexivity| | |].
   - unfold unknown_name_reaction. rewrite !payees_checked_eq, Hc.
     rewrite (pedantic_style o Hp Hq), (pedantic_style o' Hp' Hq'). reflexivity.
   - rewrite (pedantic_style o Hp Hq), (pedantic_style o' Hp' Hq'). reflexivity.
+  - unfold unknown_name_reaction.
+    rewrite (pedantic_style o Hp Hq), (pedantic_style o' Hp' Hq'). reflexivity.
 Qed.
+
+(* an undeclared commodity in a position parse_post registers is treated like the amount's own *)
+Lemma checked_position_like_amount o p k :
+  position_checked p = true ->
+  resolve_ann o (AUnknownAt p k) = resolve_ann o (AUnknown NCommodity k).
+Proof. intros H. cbn [resolve_ann]. rewrite H. reflexivity. Qed.
+
+Lemma unchecked_position_accepted o p k :
+  position_checked p = false -> resolve_ann o (AUnknownAt p k) = None.
+Proof. intros H. cbn [resolve_ann]. rewrite H. reflexivity. Qed.
 
 Lemma pedantic_session_same o o' files :
   o_pedantic o = true -> o_permissive o = false ->
